@@ -36,7 +36,7 @@ use crate::truth;
 use serde_json::{json, Value};
 use std::collections::HashMap;
 use std::sync::{Arc, Mutex};
-use std::time::Duration;
+use std::time::{Duration, Instant};
 
 pub fn run(cfg: &Cfg) -> i32 {
     let mut r = Report::new(
@@ -129,6 +129,7 @@ fn one_history(cfg: &Cfg, r: &mut Report, s: &Arc<Sched>, rt: &tokio::runtime::R
             ("cache.sidecar.written", noise_us / 2),
             ("cont.cache.exit", noise_us),
             ("task.emit.*", noise_us / 2),
+            ("task.history.locked", 4000),
             ("session.emit.*", noise_us / 2),
         ],
     );
@@ -210,10 +211,14 @@ fn one_history(cfg: &Cfg, r: &mut Report, s: &Arc<Sched>, rt: &tokio::runtime::R
         let c0 = shared.conts.lock().unwrap()[0].clone();
         let app2 = app.clone();
         let mut srng = Rng::derive(rng.next_u64(), 777);
+        let task_stream_attaches = Arc::new(std::sync::atomic::AtomicU64::new(0));
+        let tsa = task_stream_attaches.clone();
         let router_result = rt.block_on(async move {
+            let task_stream_attaches = tsa;
             let mut posted: Vec<String> = Vec::new();
             let mut task_ids: Vec<String> = Vec::new();
             let mut joins = Vec::new();
+            let mut pollers: Vec<tokio::task::JoinHandle<u64>> = Vec::new();
             for i in 0..n_sessions {
                 let app = app2.clone();
                 let c0 = c0.clone();
@@ -240,12 +245,36 @@ fn one_history(cfg: &Cfg, r: &mut Report, s: &Arc<Sched>, rt: &tokio::runtime::R
                     .json(
                         "POST",
                         "/tasks",
-                        Some(&json!({"tool":"bash","args":{"command": format!("for k in 1 2 3; do echo o{i}$k; echo e{i}$k 1>&2; done")}})),
+                        // every other task: the command exits at once, a descendant keeps both pipes and writes to both
+                        // streams for ~1.2 s (pumps that outlive the process, emitting next to each other)
+                        Some(&json!({"tool":"bash","args":{"command": if i % 2 == 1 {
+                            format!("(for k in $(seq 1 40); do echo lo{i}$k; echo le{i}$k 1>&2; sleep 0.02; done) & echo first{i}")
+                        } else {
+                            format!("for k in 1 2 3; do echo o{i}$k; echo e{i}$k 1>&2; done")
+                        }}})),
                     )
                     .await;
                 if st == 201 {
                     if let Some(id) = v.get("task_id").and_then(|x| x.as_str()) {
                         task_ids.push(id.to_string());
+                        if i % 2 == 1 {
+                            // clients that keep attaching to the task's stream while the outliving pumps emit: each attach
+                            // takes the history snapshot (delayed under its lock by the noise at task.history.locked)
+                            for _ in 0..3 {
+                                let (app, id) = (app2.clone(), id.to_string());
+                                pollers.push(tokio::spawn(async move {
+                                    let t0 = Instant::now();
+                                    let mut n = 0u64;
+                                    while t0.elapsed() < Duration::from_millis(1100) {
+                                        let (_st, rd) = app.sse(&format!("/tasks/{id}/events")).await;
+                                        drop(rd);
+                                        n += 1;
+                                        tokio::time::sleep(Duration::from_millis(2)).await;
+                                    }
+                                    n
+                                }));
+                            }
+                        }
                     }
                 }
             }
@@ -254,8 +283,18 @@ fn one_history(cfg: &Cfg, r: &mut Report, s: &Arc<Sched>, rt: &tokio::runtime::R
                     posted.push(sid);
                 }
             }
+            for p in pollers {
+                if let Ok(n) = p.await {
+                    task_stream_attaches.fetch_add(n, std::sync::atomic::Ordering::Relaxed);
+                }
+            }
             (posted, task_ids)
         });
+        let att = task_stream_attaches.load(std::sync::atomic::Ordering::Relaxed);
+        if att > 0 {
+            r.count("tasks_whose_pumps_outlive_the_command", 1);
+            r.count("task_stream_attaches_while_outliving_pumps_emit", att);
+        }
         // an earlier version of the cache files, taken while the actors are (usually) still appending
         if damage_caches && phases < total_phases {
             cache_copy = copy_cache_files(&store.streams_dir());
